@@ -129,6 +129,10 @@ def run(ctx):
     fs = repo.func("Journaler.find_seq_no")
     lits = [c.args[0].value for c in walk_no_nested(fs) if isinstance(c, ast.Call) and isinstance(c.func, ast.Attribute)
             and c.func.attr in ("index", "find") and c.args and isinstance(c.args[0], ast.Constant) and isinstance(c.args[0].value, bytes)]
+    if not lits:
+        # no literal search at all: tag 34 is located by some other algorithm (a field scan, a regular expression ...) - whether it
+        # finds the field the encoder wrote is not something this rule can read
+        raise AnalysisError("find_seq_no no longer locates tag 34 by a literal search for its marker: the agreement of the scanner with the encoder's field layout is not visible")
     ok = bool(lits) and lits[0] == b"\x0134="
     ctx.instance("C05.key-agreement", "find_seq_no[marker]", ok,
                  f"find_seq_no scans for {lits[0] if lits else None!r}; without the leading SOH a value such as '134=' or text containing '34=' is taken for the sequence number", loc(fs))
